@@ -19,6 +19,16 @@ from harness import core
 
 LEVEL = "model_checking"
 
+
+def selftest(ck, name, rejected):
+  """A binding self-test compares a corrupted expectation with the REAL code; if the code under
+  test is itself wrong (violations already recorded) a corrupted expectation may coincide with
+  it - that must not mask the violations behind a machinery error."""
+  if rejected or not ck.violations:
+    ck.selftest(name, rejected)
+  else:
+    ck.cov.setdefault("selftests_inconclusive_under_violation", []).append(name)
+
 TOL_ROOT = 1e-6       # _low_rank_root vs exact root of the prescribed spectrum, x64
 TOL_APPLY64 = 1e-9    # compressed application vs dense denotation, x64
 TOL_APPLY32 = 1e-4    # the same in float32
@@ -90,15 +100,15 @@ def run(ck):
   c1 = copy.deepcopy(next(c for c in cases if c["part"] == "root" and c["rank"] > 0 and c["ps"] < c["d"]))
   c1["keep"], c1["avg"] = [c1["avg"][0]] + c1["keep"][1:], [c1["keep"][0]] + c1["avg"][1:]
   c2 = copy.deepcopy(next(c for c in cases if c["part"] == "root" and c["ps"] < c["d"]))
-  c2["divisor"] += 1
+  c2["divisor"] += 2
   c3 = copy.deepcopy(next(c for c in cases if c["part"] == "apply" and len(c["shape"]) == 3 and c["ptype"] == "ALL"
                           and c["shape"][0] == c["shape"][1]))
   c3["met"][0]["axis"], c3["met"][1]["axis"] = c3["met"][1]["axis"], c3["met"][0]["axis"]
   for name, c in (("swapped const/tail cells", c0), ("retained set exchanged with an averaged direction", c1),
-                  ("divisor off by one", c2), ("two axes' preconditioners exchanged", c3)):
+                  ("divisor off by two", c2), ("two axes' preconditioners exchanged", c3)):
     sub = core.Check(ck.pid, ck.level, ck.tier, ck.seed); sub.work = ck.work
     replay(sub, [c], x64=True, label="selftest")
-    ck.selftest(f"R: {name} is flagged", len(sub.violations) > 0)
+    selftest(ck, f"R: {name} is flagged", len(sub.violations) > 0)
   # ---- R: real optimizer runs ------------------------------------------------------------------
   jobs = run_jobs(ck, quick)
   res = core.run_workers("harness.workers.lowrank_dsrun", jobs, work=ck.work, chunk=1)
